@@ -257,6 +257,7 @@ func runOneJob(id, tier string, sp Spec, shard, shards, slot int, raceLog, out s
 			}
 			scName := sc.Name
 			one := sched.Explore(sc, opt, func(cs sched.Case, f sched.Finding) {
+				cs.Tier = tier
 				p.Violate(name, id+":"+f.Key, fmt.Sprintf("scenario %s, schedule %v: %s", scName, cs.Schedule, f.What), cs)
 			})
 			st.Executions += one.Executions
@@ -271,6 +272,7 @@ func runOneJob(id, tier string, sp Spec, shard, shards, slot int, raceLog, out s
 		}
 	} else {
 		st = sched.Explore(sp.Sc, opt, func(cs sched.Case, f sched.Finding) {
+			cs.Tier = tier
 			if strings.HasPrefix(f.Key, "harness:") {
 				notes = append(notes, name+": "+f.What)
 				return
@@ -520,7 +522,11 @@ func ReplayCase(p *run.Part, id string, raw []byte, raceLog string) string {
 		panic(err)
 	}
 	world.Init()
-	for _, tier := range []string{"quick", "thorough"} {
+	tiers := []string{"quick", "thorough"}
+	if cs.Tier != "" {
+		tiers = []string{cs.Tier}
+	}
+	for _, tier := range tiers {
 		for _, sp := range Registry[id].Scenarios(tier) {
 			for _, b := range sp.Batch {
 				if b.Name == cs.Scenario {
